@@ -528,6 +528,11 @@ func (x *Exec) runFrame(fr *frame) {
 			if x.steps > x.ex.bounds.MaxSteps {
 				x.abort(Depth, fmt.Sprintf("more than %d steps", x.ex.bounds.MaxSteps))
 			}
+			if x.stepBudget > 0 && x.steps-x.stepBudgetStart > x.stepBudget {
+				x.stepBudget = 0
+				x.recordViolation("assert", "loop-budget", fmt.Sprintf("code under test ran more than %d steps after LoopBudget (does not terminate within the declared budget)%s", x.steps-x.stepBudgetStart, x.whereStr()))
+				x.abort(OK, "")
+			}
 			switch x.visitInstr(fr, instr) {
 			case kReturn:
 				return
@@ -814,6 +819,10 @@ func (x *Exec) decideAt(fr *frame, instr *ssa.If, c *Term) bool {
 			fr.visits = map[*ssa.BasicBlock]int{}
 		}
 		fr.visits[instr.Block()]++
+		if x.loopBudget > 0 && fr.visits[instr.Block()] > x.loopBudget {
+			x.recordViolation("assert", "loop-budget", fmt.Sprintf("a loop took more than %d symbolic iterations (declared budget)%s", x.loopBudget, x.whereStr()))
+			x.abort(OK, "")
+		}
 		if fr.visits[instr.Block()] > x.ex.bounds.MaxUnwind {
 			x.abort(Unwind, fmt.Sprintf("more than %d symbolic decisions at one branch in one activation%s", x.ex.bounds.MaxUnwind, x.whereStr()))
 		}
